@@ -46,3 +46,13 @@ def vacuity(res, rule, minimum):
     n = res.rules.get(rule, {}).get("instances", 0)
     if n < minimum:
         res.undecide(f"vacuity guard: rule {rule} matched {n} instance(s), expected at least {minimum}")
+
+
+def own_rule(ctx, fields):
+    """OWN premise (filled in by sa.eff once available)."""
+    try:
+        from sa import eff
+    except ImportError:
+        ctx.res.note("OWN premise not yet checked structurally")
+        return
+    eff.check_own(ctx, fields)
